@@ -153,6 +153,9 @@ func (ft *FakeTarget) serveProbe(c *Conn, ph Phase) {
 	ft.Probes++
 	ft.mu.Unlock()
 	ft.w.H.Add(Event{Kind: "tgt.probe", Target: addr, Obj: c.ID(), Info: ph.Kind, Status: ph.Status})
+	ft.w.mu.Lock()
+	ft.w.bumpPointLocked("tgt.probe:" + addr) // operations can be aligned with "this target has received a probe"
+	ft.w.mu.Unlock()
 	ft.w.S.Yield("tgt.probe")
 	status := 200
 	switch ph.Kind {
